@@ -5,6 +5,7 @@ from ..rules_ni import NI1_sign_independence
 
 def run(tree, rep, tier):
     flow = Flow(tree)
+    flow.describe(rep)
     P4_inverse(rep, flow)
     NI1_sign_independence(rep, flow)
     P5_cancel_list(rep, flow, ["stabilizer_circuits.get_readout_circuit", "stabilizer_circuits.get_preparation_circuit"])
